@@ -354,6 +354,43 @@ class _Cutter(ast.NodeTransformer):
         return out
 
 
+class _DesugarListComp(ast.NodeTransformer):
+    """`name = [elt for v in it]` (one generator, no condition, simple target)  ->  `name = []` + `for v in it: name.append(elt)`.
+    This is the definition of a list comprehension except for the scope of `v` (which then leaks into the function: the
+    rewrite is skipped when the function uses the name `v` anywhere else).  It turns a loop written as a comprehension into a
+    loop statement that can be cut by an invariant; nothing else is touched."""
+
+    def visit_FunctionDef(self, node):
+        self._names = {}
+        for sub in ast.walk(node):
+            if isinstance(sub, ast.Name):
+                self._names[sub.id] = self._names.get(sub.id, 0) + 1
+            elif isinstance(sub, ast.arg):
+                self._names[sub.arg] = self._names.get(sub.arg, 0) + 1
+        node.body = self._block(node.body)
+        return node
+
+    def _block(self, stmts):
+        out = []
+        for st in stmts:
+            for fld in ('body', 'orelse', 'finalbody'):
+                if isinstance(getattr(st, fld, None), list) and not isinstance(st, (ast.FunctionDef, ast.ClassDef)):
+                    setattr(st, fld, self._block(getattr(st, fld)))
+            lc = st.value if (isinstance(st, ast.Assign) and len(st.targets) == 1 and isinstance(st.targets[0], ast.Name) and isinstance(st.value, ast.ListComp)) else None
+            if lc is not None and len(lc.generators) == 1 and not lc.generators[0].ifs and not lc.generators[0].is_async and isinstance(lc.generators[0].target, ast.Name):
+                v = lc.generators[0].target.id
+                inside = sum(1 for sub in ast.walk(lc) if isinstance(sub, ast.Name) and sub.id == v)
+                tgt = st.targets[0].id
+                uses_tgt = any(isinstance(sub, ast.Name) and sub.id == tgt for sub in ast.walk(lc))
+                if self._names.get(v, 0) == inside and not uses_tgt:
+                    out.append(ast.Assign([ast.Name(tgt, ast.Store())], ast.List([], ast.Load())))
+                    out.append(ast.For(ast.Name(v, ast.Store()), lc.generators[0].iter,
+                                       [ast.Expr(ast.Call(ast.Attribute(ast.Name(tgt, ast.Load()), 'append', ast.Load()), [lc.elt], []))], []))
+                    continue
+            out.append(st)
+        return out
+
+
 def _assume_range(self, k, v, rng):
     c = ctx()
     lo, hi = lift(rng.start), lift(rng.stop)
@@ -375,6 +412,8 @@ def cut(fn, loops, stubs=None, extra_globals=None):
     fdef.decorator_list = []
     if fdef.body and isinstance(fdef.body[0], ast.Expr) and isinstance(getattr(fdef.body[0], 'value', None), ast.Constant) and isinstance(fdef.body[0].value.value, str):
         fdef.body = fdef.body[1:]      # the docstring is dropped from the re-compiled copy
+    tree = _DesugarListComp().visit(copy.deepcopy(tree))
+    ast.fix_missing_locations(tree)
     cutter = _Cutter(loops)
     new = cutter.visit(copy.deepcopy(tree))
     ast.fix_missing_locations(new)
